@@ -57,7 +57,11 @@ func nameFromKind(kind an.BasicKind) string {
 
 // typeID returns an identifier for `ty`
 // usable in function names
-func typeID(ty an.Type) string {
+func typeID(ty an.Type) string { return typeIDRec(ty, nil) }
+
+// typeIDRec keeps the named types being resolved, since a type
+// like `type Tree []Tree` has no finite identifier
+func typeIDRec(ty an.Type, resolving []*an.Named) string {
 	switch ty := ty.(type) {
 	case *an.Pointer:
 		panic("pointers not handled by the SQL generator")
@@ -70,11 +74,16 @@ func typeID(ty an.Type) string {
 		if ty.Len >= 0 {
 			as += fmt.Sprintf("%d_", ty.Len)
 		}
-		return as + typeID(ty.Elem)
+		return as + typeIDRec(ty.Elem, resolving)
 	case *an.Map:
-		return "map_" + typeID(ty.Elem) // JSON map keys are always strings
+		return "map_" + typeIDRec(ty.Elem, resolving) // JSON map keys are always strings
 	case *an.Named: // shortcut to underlying
-		return typeID(ty.Underlying)
+		for _, named := range resolving {
+			if named == ty {
+				panic("recursive type " + an.LocalName(ty) + " not handled by the SQL generator")
+			}
+		}
+		return typeIDRec(ty.Underlying, append(resolving, ty))
 	case *an.Struct, *an.Enum, *an.Union: // these types are always named
 		return idFromNamed(ty.Type().(*types.Named))
 	default:
